@@ -10,6 +10,12 @@ TRUST = ("Trusted base: go/packages + go/types type-checking of /repo's working 
 
 # id -> (technique, level text, design ref)
 CLAIMED = {
+ "C02": ("pairing rule on the name tables, data-flow from endpoint fields to removeAttribute(s), strconv conversion-template tables, wire-key rule over template accessors, SSA path tables of Vars/unescape/RequestDecoder, template range-element and required-key lints",
+         "Static necessary conditions only: inverse name tables, total and disjoint attribute→location partition by construction, inverse conversion pairs per primitive, wire accessors keyed by wire-name fields on both sides, presence guards on the raw variable, path values unescaped once, request codec of the announced (sanitised) type. Does not decide equality of received and sent payloads.",
+         "DESIGN.md §3 C02/C03"),
+ "C03": ("template rules on status/headers/body order and tag selection, go/cfg order rule on dsl.Response, error-capture rule on the transform walkers, constant TABLE against net/http, shared wire-key/conversion/partition rules, tag-pointer and stale-state lints on the response data builder",
+         "Static necessary conditions only: status written = status of the response being encoded, after headers; tag selection by the element's tag value; default status before the response DSL; walker errors tested; status vocabulary equals net/http's; response body = result minus headers/cookies; wire keys and conversions as for C02; viewed tag pointers. Does not decide equality of received and sent results.",
+         "DESIGN.md §3 C02/C03"),
  "C04": ("reaching-constants dataflow over the template data map (datakeys), abstract template expansion (variants) parsed with go/parser, keyword semantics tables, CONSUMES via reachability-scoped field reads, sibling-direction and loop-exit lints, SSA path table of ValidateFormat",
          "Static necessary conditions only: decode/validate gate before the endpoint in every handler variant, keyword templates emit the comparison their bound names, definite template flags at every execute site, every validation keyword consumed, consistent merge directions, complete recursion, required-list merging visits every element, must-validate decisions consult every collection and accumulate, runtime format predicates. Does not decide that emitted validators accept exactly the valid values.",
          "DESIGN.md §3 C04"),
